@@ -294,6 +294,11 @@ def plan_C10(ctx):
     lines = ["package c10", ""]
     for n in range(0, smax + 1):
         lines.append("func Drive_string_%d() { DriveString(%d) }" % (n, n))
+    # block boundaries: a 4-byte symbolic window in front of every power of two up to 2^kmax
+    kmax = ctx.q(8, 12)
+    for kk in range(3, kmax + 1):
+        for j in (1, 2, 3):
+            lines.append("func Drive_stringat_%d() { DriveStringAt(%d, 4) }" % ((1 << kk) - j, (1 << kk) - j))
     lines.append("func Drive_int() { DriveInt(%d) }" % ctx.q(4, 8))
     for n in range(0, ctx.q(3, 5) + 1):
         for extra in (0, 1):
@@ -316,11 +321,12 @@ def plan_C10(ctx):
     new, known, replayed, mism, details = process_harness(ctx, res, "rt/c10", order_free=r"Drive_map_")
     extra = {
         "bounds": {"string_bytes_max": smax, "string_bytes": "fully symbolic (all 256 values per byte, so ASCII, every multi-byte class and every invalid sequence)",
+                   "long_strings": "concrete ASCII prefix of 2^k - j bytes (k = 3..%d, j = 1..3), then 4 fully symbolic bytes, then a concrete tail: every rune that straddles a power-of-two offset up to %d" % (kmax, 1 << kmax),
                    "integer_n": "every n <= %d (all n <= 0 in one path)" % ctx.q(4, 8),
                    "slice_len_max": ctx.q(3, 5), "slice_mutations": "per iteration one of none/store/append/shrink/nil, spare capacity 0 or 1",
                    "map_entries_max": ctx.q(3, 4), "map_key_value_types": ["int->int with deletion script", "string->any incl. nil", "any(incl. nil)->int"],
                    "chan_values_max": 3,
-                   "outside": "longer strings/collections; map iteration order (one admissible order in both halves: insertion order, an entry created during the loop is produced next); outcomes of insertion during iteration other than that; unbuffered channels and concurrent senders; floating-point (NaN) map keys: the engine has no floating point (seed C10_r3 is therefore not caught)"},
+                   "outside": "longer fully symbolic strings/collections; block boundaries that are not powers of two or lie beyond the stated offset; map iteration order (one admissible order in both halves: insertion order, an entry created during the loop is produced next); outcomes of insertion during iteration other than that; unbuffered channels and concurrent senders; floating-point (NaN) map keys: the engine has no floating point (seed C10_r3 is therefore not caught)"},
         "exhaustive": True,
         "explanation": "native range and seq.New*Iter run in the same harness on the same symbolic input; UTF-8 decoding is forked per byte class with solver-checked feasibility; one equality query per path",
         "details": details[:20],
